@@ -20,6 +20,7 @@ ASSUMPTIONS = ["vf/ref/script_ref.py push rules (minimal push for the length); o
                "a one-byte data item is a data push (no BIP62 minimal-number rule)"]
 OBLIGATIONS = {
     "concurrent_calls": "interleavings of two concurrent calls (single-case checks in two threads, cold and after warm-up calls)",
+    "long_history": "operations executed in one long history (>= 1000 distinct operations, forward / forward / reverse)",
     "history_sequences": "operation sequences (non-initial process states) explored",
     "opcode_name_lookalike": "a data item whose hex spelling equals an opcode name (with or without OP_ prefix, any case)",
     "long_program": "a program / witness stack of more than 900 items",
@@ -264,6 +265,8 @@ def jobs(tier, seed):
         js.append({"name": f"builders/{sh}", "part": "builders", "shard": [sh, 8], "weight": 4})
     from vf.runner import seq_jobs
     js += seq_jobs(4, weight=3)
+    from vf.runner import long_jobs
+    js += long_jobs()
     from vf.runner import concur_jobs
     js += concur_jobs(len(CONCUR_SCEN))
     return js
@@ -275,6 +278,9 @@ def run_job(job):
         ops = seq_ops(dict(job, shard=[0, 1]))
         scens = [{"threads": [ops[i] for i in sc[0]], "warm": [ops[i] for i in sc[1]], "post": [ops[i] for i in (sc[2] if len(sc) > 2 else ())]} for sc in CONCUR_SCEN]
         return run_concur_job(job, scens, run_case, PROPERTY, CONCUR_FILES)
+    if job["part"] == "longhist":
+        from vf.runner import run_long_job, default_long_ops
+        return run_long_job(job, default_long_ops(seq_ops, job), run_case)
     if job["part"] == "seq":
         from vf.runner import run_seq_job
         return run_seq_job(job, seq_ops(job), run_case, depth=3 if job["tier"] == "quick" else 4)
